@@ -66,6 +66,13 @@ class FalsyError(BodyError):
         return False
 
 
+class BrokenStrError(BodyError):
+    """An exception that cannot be printed (its __str__ is broken): still an ordinary failure of the execution."""
+
+    def __str__(self) -> str:
+        return 42  # type: ignore[return-value]
+
+
 class BodyBaseError(BaseException):
     """BaseException (not Exception) raised by scripted task bodies."""
 
@@ -96,6 +103,8 @@ class Env:
         self.raised: Dict[int, BaseException] = {}
         self.msg_labels: Dict[int, Dict[str, Any]] = {}
         self.sync_m: Dict[int, int] = {}
+        self.ctxs: Dict[int, Any] = {}
+        self.no_requeue = False
         self.abort = False
         self.closed = False
 
@@ -208,8 +217,7 @@ class ScriptedBroker(AsyncBroker):
         self.fail_next = False
 
     async def kick(self, message: Any) -> None:
-        self.kicked.append(message)
-        self.env.rec("kick", m=_mid(message.task_id))
+        self.kicked.append(message)       # a requeued message (Context.requeue); not an event of the worker's processing
 
     async def listen(self) -> Any:  # type: ignore[override]
         while True:
@@ -434,14 +442,17 @@ def make_tasks(env: Env, broker: ScriptedBroker, cfg: Dict[str, Any]) -> None:
     by_id = {d["id"]: d for d in deps}
     top = [d["id"] for d in deps if d["parent"] == 0]
 
-    def argflag(i: int, v: Any) -> str:
+    def argflag(i: int, v: Any, w: Any = None) -> str:
         want = ARG_POOL[i % len(ARG_POOL)]
-        return "argok" if (type(v) is type(want) and v == want) else "argbad"
+        # third argument: sent as the text "5" for a parameter annotated int - arrives converted iff parsing is enabled
+        want_w: Any = "5" if cfg.get("noparse") else 5
+        ok = type(v) is type(want) and v == want and type(w) is type(want_w) and w == want_w
+        return "argok" if ok else "argbad"
 
-    async def body_async(i: int, ctx_tid: int, v: Any = None) -> Any:
+    async def body_async(i: int, ctx_tid: int, v: Any = None, w: Any = None) -> Any:
         m = CUR_M.get()
         mc = cfg["msgs"][i - 1]
-        env.rec("start", m=m, x=i, y=ctx_tid, s=argflag(i, v))
+        env.rec("start", m=m, x=i, y=ctx_tid, s=argflag(i, v, w))
         if mc.get("body", "wait") == "instant":
             outcome = mc.get("outcome", "ret")
         else:
@@ -455,7 +466,10 @@ def make_tasks(env: Env, broker: ScriptedBroker, cfg: Dict[str, Any]) -> None:
                     await asyncio.sleep(0)
                 env.rec("end", m=m, x=i, s="cancel")
                 raise
-        return finish_body(i, m, outcome)
+        res = finish_body(i, m, outcome)
+        if isinstance(res, tuple) and len(res) == 2 and res[0] == "__requeue__":
+            await res[1].requeue()               # gives the message back to the broker and ends the execution without a result
+        return res
 
     def finish_body(i: int, m: int, outcome: str) -> Any:
         env.rec("end", m=m, x=i, s=outcome)
@@ -465,6 +479,8 @@ def make_tasks(env: Env, broker: ScriptedBroker, cfg: Dict[str, Any]) -> None:
             return val
         if outcome == "exc" and i % 5 == 0:
             exc: BaseException = TaskRejectedError()      # what Context.reject() raises: an ordinary failure of the execution
+        elif outcome == "exc" and i % 7 == 3:
+            exc = BrokenStrError(f"boom {i}", i)
         elif outcome == "exc":
             exc = BodyError(f"boom {i}", i)
         elif outcome == "falsy":
@@ -472,6 +488,9 @@ def make_tasks(env: Env, broker: ScriptedBroker, cfg: Dict[str, Any]) -> None:
         elif outcome == "base":
             exc = BodyBaseError(f"base {i}")
         elif outcome == "nores":
+            ctx_obj = env.ctxs.get(i)
+            if ctx_obj is not None and i % 2 == 0 and not env.no_requeue:
+                return ("__requeue__", ctx_obj)          # the async wrapper awaits Context.requeue(), which raises NoResultError
             exc = NoResultError()
         elif outcome == "cerr":
             exc = asyncio.CancelledError()
@@ -482,33 +501,34 @@ def make_tasks(env: Env, broker: ScriptedBroker, cfg: Dict[str, Any]) -> None:
         env.raised[i] = exc
         raise exc
 
-    def body_sync(i: int, ctx_tid: int, v: Any = None) -> Any:
+    def body_sync(i: int, ctx_tid: int, v: Any = None, w: Any = None) -> Any:
         mc = cfg["msgs"][i - 1]
         hold = env.body_fut.get(i)
         if mc.get("slow") and isinstance(hold, SyncHold):
             m = env.sync_m.get(i, i)          # runs in a worker thread: the context variable of the callback is not there
-            env.rec("start", m=m, x=i, y=ctx_tid, s=argflag(i, v))
+            env.rec("start", m=m, x=i, y=ctx_tid, s=argflag(i, v, w))
             hold.started.set()
             hold.go.wait()
             if env.abort:
                 return None
             return finish_body(i, m, hold.outcome)
         m = CUR_M.get()
-        env.rec("start", m=m, x=i, y=ctx_tid, s=argflag(i, v))
+        env.rec("start", m=m, x=i, y=ctx_tid, s=argflag(i, v, w))
         return finish_body(i, m, mc.get("outcome", "ret"))
 
     # plain tasks (no dependency graph at all)
-    async def ta0(i: int, v: Any = None) -> Any:
-        return await body_async(i, 0, v)
+    async def ta0(i: int, v: Any = None, w: int = 0) -> Any:
+        return await body_async(i, 0, v, w)
 
-    def ts0(i: int, v: Any = None) -> Any:
-        return body_sync(i, 0, v)
+    def ts0(i: int, v: Any = None, w: int = 0) -> Any:
+        return body_sync(i, 0, v, w)
 
-    broker.register_task(ta0, task_name="ta0")
+    if not cfg.get("synconly"):
+        broker.register_task(ta0, task_name="ta0")
     broker.register_task(ts0, task_name="ts0")
 
     # tasks with Context + configured dependencies
-    params = ["i: int", "v: Any = None", "ctx: Context = TaskiqDepends()"]
+    params = ["i: int", "v: Any = None", "ctx: Context = TaskiqDepends()", "w: int = 0"]
     for k in top:
         uc = "True" if by_id[k]["cached"] else "False"
         params.append(f"k{k}=TaskiqDepends(FNS[{k}], use_cache={uc})")
@@ -520,19 +540,21 @@ def make_tasks(env: Env, broker: ScriptedBroker, cfg: Dict[str, Any]) -> None:
         sig_s = ", ".join(params[:2] + ["ctx=TaskiqDepends(GETCTX, use_cache=False)"] + params[3:])
     src = (
         f"async def ta({sig}):\n"
-        f"    return await BODY_A(i, MID(ctx.message.task_id), v)\n"
+        f"    CTXS[i] = ctx\n"
+        f"    return await BODY_A(i, MID(ctx.message.task_id), v, w)\n"
         f"def ts({sig_s}):\n"
-        f"    return BODY_S(i, MID(ctx.message.task_id), v)\n"
+        f"    return BODY_S(i, MID(ctx.message.task_id), v, w)\n"
     )
     def get_ctx(ctx: Context = TaskiqDepends()) -> Context:
         return ctx
 
     glb = {
         "FNS": fns, "Context": Context, "TaskiqDepends": TaskiqDepends, "BODY_A": body_async, "Any": Any,
-        "BODY_S": body_sync, "MID": _mid, "__name__": __name__, "GETCTX": get_ctx,
+        "BODY_S": body_sync, "MID": _mid, "__name__": __name__, "GETCTX": get_ctx, "CTXS": env.ctxs,
     }
     exec(src, glb)  # noqa: S102
-    broker.register_task(glb["ta"], task_name="ta")
+    if not cfg.get("synconly"):
+        broker.register_task(glb["ta"], task_name="ta")
     broker.register_task(glb["ts"], task_name="ts")
 
 
@@ -573,9 +595,13 @@ def build_messages(env: Env, broker: ScriptedBroker, cfg: Dict[str, Any]) -> Non
                 prepared = {k_: _wire_label(v_) for k_, v_ in labels.items()}
                 wire_labels = {k_: v_[0] for k_, v_ in prepared.items()}
                 wire_types = {k_: v_[1] for k_, v_ in prepared.items()}
+                if idx % 4 == 2:
+                    # a label without a type entry (added by a pre_send middleware that knows nothing about types): kept as it is
+                    wire_labels["lbl"] = labels["lbl"]
+                    del wire_types["lbl"]
             tm = TaskiqMessage(
                 task_id=f"m{mc.get('tid') or idx}", task_name=name, labels=wire_labels, labels_types=wire_types,
-                args=[idx, ARG_POOL[idx % len(ARG_POOL)]], kwargs={},
+                args=[idx, ARG_POOL[idx % len(ARG_POOL)]], kwargs={"w": "5"},
             )
             env.msg_labels[idx] = dict(labels)
             data = broker.formatter.dumps(tm).message
@@ -652,8 +678,11 @@ def run(scn: Dict[str, Any]) -> List[Dict[str, Any]]:
             return _run_inmem(scn, cfg, loop, env)
         broker = ScriptedBroker(env)
         broker.result_backend = RecordingBackend(env)
-        for idx, spec in enumerate(cfg.get("mws") or [], start=1):
-            broker.add_middlewares(make_middleware(env, idx, spec))
+        mw_objs = [make_middleware(env, idx, spec) for idx, spec in enumerate(cfg.get("mws") or [], start=1)]
+        if mw_objs:
+            broker.add_middlewares(mw_objs[0])            # both registration styles, one after the other
+            if len(mw_objs) > 1:
+                broker.with_middlewares(*mw_objs[1:])
         make_tasks(env, broker, cfg)
         build_messages(env, broker, cfg)
         index_of = {}
@@ -682,7 +711,7 @@ def run(scn: Dict[str, Any]) -> List[Dict[str, Any]]:
 
             async def main() -> None:
                 await run_receiver_task(
-                    broker, receiver_cls=ObservedReceiver, validate_params=True, max_async_tasks=cfg.get("A", 0),
+                    broker, receiver_cls=ObservedReceiver, validate_params=not cfg.get("noparse"), max_async_tasks=cfg.get("A", 0),
                     max_prefetch=cfg.get("P", 0), propagate_exceptions=cfg.get("propagate", True), run_startup=True,
                     sync_workers=(11 if len(cfg["msgs"]) % 2 == 0 else None),   # must not influence flow control
                     ack_time=ACK[cfg.get("ack", "default")],
@@ -692,7 +721,7 @@ def run(scn: Dict[str, Any]) -> List[Dict[str, Any]]:
             receiver = ObservedReceiver(
                 broker,
                 executor=ThreadExec(env) if any(m_.get("slow") for m_ in cfg["msgs"]) else InlineExecutor(),
-                validate_params=True,
+                validate_params=not cfg.get("noparse"),
                 max_async_tasks=cfg.get("A") or None,  # 0 = unlimited
                 max_prefetch=cfg.get("P", 0),
                 propagate_exceptions=cfg.get("propagate", True),
@@ -848,7 +877,7 @@ def _run_inmem(scn: Dict[str, Any], cfg: Dict[str, Any], loop: VLoop, env: Env) 
 
     class ObsInMem(InMemoryBroker):
         def __init__(self) -> None:
-            super().__init__(max_async_tasks=7, propagate_exceptions=cfg.get("propagate", True), cast_types=True,
+            super().__init__(max_async_tasks=7, propagate_exceptions=cfg.get("propagate", True), cast_types=not cfg.get("noparse"),
                              await_inplace=bool(cfg.get("inplace", False)))
             self.msgs: List[Any] = []
             self.arrived = 0
@@ -872,6 +901,7 @@ def _run_inmem(scn: Dict[str, Any], cfg: Dict[str, Any], loop: VLoop, env: Env) 
             except Exception:  # noqa: BLE001   (unknown task: refused at the door, nothing was executed)
                 pass
 
+    env.no_requeue = True          # a requeue would be executed again at once by this broker, for ever
     broker = ObsInMem()
     broker.executor.shutdown(wait=False)
     broker.receiver.executor = InlineExecutor()
@@ -934,6 +964,8 @@ def _run_cli(scn: Dict[str, Any], cfg: Dict[str, Any], loop: VLoop, env: Env, br
         argv += ["--wait-tasks-timeout", str(cfg["W"] / 10.0)]
     if not cfg.get("propagate", True):
         argv += ["--no-propagate-errors"]
+    if cfg.get("noparse"):
+        argv += ["--no-parse"]
     args = WorkerArgs.from_cli(argv)
     handlers: Dict[int, Any] = {}
     finish = asyncio.Event()      # mirror of the request, for the step interpreter only
